@@ -17,8 +17,10 @@ MODELLED = ("utils.default_is_dynamic over the lexer's tokens, Question.xml_inst
             "get_setvalue_node_for_dynamic_default, the model placement in Survey.xml_descendent_bindings, RepeatingSection._dynamic_defaults_helper, "
             "builder._save_trigger, Question.xml_control/nest_set_nodes and the calculate rule of xml_bindings (coq/Model/Defaults.v; token-name "
             "sets, event strings and the shape of each of these functions are regenerated/pinned from /repo on every run). "
-            "re.Scanner (the tokens of a default text) is an oracle of the model: the real scanner's tokens are fed to it")
-ASSUMPTIONS = ["re.Scanner tokenisation of the default text (not modelled; its rule table is regenerated into Gen/Lexer.v and its output is the model's input)"]
+            "re.Scanner over LEXER_RULES is modelled rule by rule (coq/Model/Scanner.v; the 26 pattern texts and their order are regenerated "
+            "from /repo and pinned in Proofs/PinsScanner.v; op L.scan compares tokens, offsets and remainder with the real scanner)")
+ASSUMPTIONS = ["re.Scanner compiles the patterns without the UNICODE flag: \\d and \\s are the ASCII classes (observed by L.scan on NBSP, U+2000, U+001C, Arabic-Indic digits)",
+               "Python's re engine (leftmost-alternative, greedy, backtracking) implements the 26 patterns as written out in Model/Scanner.v (checked by L.scan, not proved)"]
 
 TYPES = ["text", "integer", "decimal", "date", "dateTime", "time", "select_one yn", "geopoint", "calculate", "note", "barcode"]
 
@@ -70,6 +72,61 @@ class ClassifierOp(Op):
             exp = "1" if default_is_dynamic(d, ty) else "0"
             coq = f"({cstr(d)}, {cstr(ty)}, " + clist([f"({cstr(t.name)}, {cstr(t.value)})" for t in toks], "(list N * list N)") + ")"
             cases.append({"coq": coq, "expected": exp, "desc": {"default": d, "type": ty}, "class": f"{'dynamic' if exp == '1' else 'static'}", "nontrivial": bool(d)})
+        return cases
+
+
+SCAN_ATOMS = ["a", "ab", "q1", "x-y", "a.b", "é", "日", "_u", "1", "12", "2020-01-02", "-0044-03-15", "10:00:00", "T", "Z", "+02:00", "-", "+", "*", " mod ", " div ", "mod",
+              "=", "!=", "<", ">", "<=", ">=", " and ", " or ", "|", "(", ")", "[]{}", "[", "]", "{", "}", "..", ".", "/", "'s'", '"d"', "'", '"', ",", " ", "  ", "\t", "\n",
+              "${", "}", "${q}", "${last-saved#q}", "${last-saved}", "${a:b}", "f(", "n[", "x://", "a:b://", "a:", "a:b", ":", "#", "@", "1.5", ".5", "5.", "-1", "-.5", "1-1",
+              "10:00:00.  Z", "10:00:00. ", "2020-01-02T10:00:00", "2020-01-02T10:00:00+02:00", "$", "\\", "😀", "a:(", "a:b(", "last-saved#", "now()", "\r\n", "\x0b", "\u00a0",
+              "\x1c", "\x85", "١٢", "٢٠٢٠-01-02", "·", "a·b", "\u0300", "a\u0300", "\u203f", "\u2040x", "\ud7ff", "\uf900", "\ufffd", "\U00010000", "\U000effff", "\U000f0000", "×", "÷", "\u037e", "\u2000", "\u200c"]
+
+
+def scan_text(rng):
+    r = rng.random()
+    if r < 0.2:
+        return rng.choice(sum(LITERALS.values(), []) + EXPRESSIONS + HYPHEN_EXPR)
+    return "".join(rng.choice(SCAN_ATOMS) for _ in range(rng.randint(0, 6)))
+
+
+class ScannerOp(Op):
+    """_EXPRESSION_LEXER.scan against Model/Scanner.v: token names, texts, start/end offsets and the remainder"""
+    name = "L.scan"
+    imports = ["PX.Model.Scanner"]
+    fn = ("fun s => let '(ts, rem) := scan s in join [2%N] (map (fun t => let '(n, v, a, b) := t in n ++ [1%N] ++ v ++ [1%N] ++ dec (N.of_nat a) ++ [1%N] ++ dec (N.of_nat b)) "
+          "(with_pos 0 ts)) ++ [3%N] ++ rem")
+    in_ty = "list N"
+    n_quick, n_thorough = 1200, 12000
+
+    def generate(self, rng, n):
+        from pyxform.parsing.expression import _EXPRESSION_LEXER
+        cases = []
+        for _ in range(n):
+            s = scan_text(rng)
+            toks, rem = _EXPRESSION_LEXER.scan(s)
+            exp = "\x02".join(f"{t.name}\x01{t.value}\x01{t.start}\x01{t.end}" for t in toks) + "\x03" + rem
+            kinds = sorted({t.name for t in toks})
+            cases.append({"coq": cstr(s), "expected": exp, "desc": {"text": s}, "class": f"{min(len(toks), 6)} tokens", "nontrivial": len(kinds) > 1})
+        return cases
+
+
+class TextClassifierOp(Op):
+    """default_is_dynamic on the raw text, through the modelled scanner (no oracle)"""
+    name = "L.default_is_dynamic_text"
+    imports = ["PX.Model.Scanner", "PX.Model.Defaults"]
+    fn = "fun p => if default_is_dynamic tokens (fst p) (snd p) then [49%N] else [48%N]"
+    in_ty = "(list N * list N)"
+    n_quick, n_thorough = 600, 6000
+
+    def generate(self, rng, n):
+        from pyxform.utils import default_is_dynamic
+        cases = []
+        for _ in range(n):
+            ty = bare(rng.choice(TYPES)) if rng.random() < 0.8 else rng.choice(["geotrace", "geoshape", "string", ""])
+            d = scan_text(rng)
+            exp = "1" if default_is_dynamic(d, ty) else "0"
+            cases.append({"coq": f"({cstr(d)}, {cstr(ty)})", "expected": exp, "desc": {"default": d, "type": ty},
+                          "class": "dynamic" if exp == "1" else "static", "nontrivial": bool(d)})
         return cases
 
 
@@ -320,7 +377,7 @@ class TriggerOp(Op):
 
 
 def ops(tier):
-    return [ClassifierOp(), DefaultsOp(), TriggerOp()]
+    return [ScannerOp(), ClassifierOp(), TextClassifierOp(), DefaultsOp(), TriggerOp()]
 
 
 # ---- direct oracle ---------------------------------------------------------------------------------------------
